@@ -91,6 +91,17 @@ def _expr(draw, depth, bound):
         if k == 6:  # free (unbound) names: nothing is known about them on an untyped stream
             fn = draw(st.sampled_from(FREE_NAMES))
             return draw(st.sampled_from([fn, f"{fn}.pt", f"{fn}.encode()", f"{fn}.aa", f"{fn}.split()", f"f({fn})", f"{fn}[0]"]))
+        if k == 5 and draw(st.booleans()):
+            # conditionals whose branch types are evident from the text, next to a dict literal with the same keys but other value types
+            consts = {"i": ["1", "7"], "f": ["1.5", "0.25"], "s": ["'a'", "'x y'"], "b": ["True", "False"], "y": ["b'a'", "b''"]}
+            t1, t2 = draw(st.permutations(sorted(consts)))[:2]
+            key = draw(st.sampled_from(_CFG.dict_keys))
+            other = draw(st.sampled_from(_CFG.dict_keys))
+            mk = lambda t: draw(st.sampled_from(consts[t]))  # noqa: E731
+            lookup = lambda t: draw(st.sampled_from([f"{{{key!r}: {mk(t)}}}[{key!r}]", f"{{{other!r}: {draw(_expr(0, bound))}, {key!r}: {mk(t)}}}[{key!r}]", f"({draw(_expr(0, bound))}, {mk(t)})[1]", mk(t)]))  # noqa: E731
+            first = f"{{{key!r}: {mk(t1)}}}[{key!r}]"
+            cond = f"({lookup(t2)} if {draw(_expr(d, bound))} else {lookup(t2)})"
+            return draw(st.sampled_from([f"({first}, {cond})", f"({cond}, {first})", cond, f"[{first}, {cond}]"]))
         if k == 5:  # ifexp with constants (exact predictions)
             a, b = draw(st.sampled_from([("1", "2"), ("1.5", "2"), ("'a'", "'b'"), ("'a'", "1"), ("True", "False"), ("1", "'x'"), ("b'a'", "b'b'")]))
             return f"({a} if {draw(_expr(d, bound))} else {b})"
@@ -198,11 +209,9 @@ def triggers(op: str, body: ast.expr):
         t.add("where-non-boolean")
     for n in ast.walk(body):
         if isinstance(n, ast.IfExp):
-            a, b = n.body, n.orelse
-            if isinstance(a, ast.Constant) and isinstance(b, ast.Constant):
-                ta, tb = type(a.value), type(b.value)
-                if ta is tb or ({ta, tb} <= {int, float}):
-                    continue
+            ta, tb = _known_type(n.body), _known_type(n.orelse)
+            if ta is not None and tb is not None and (ta is tb or ({ta, tb} <= {int, float})):
+                continue  # both branches have a type that is evident from the text, and the types agree: must pass
             t.add("ifexp-types")
         if isinstance(n, ast.Constant) and (n.value is None or n.value is Ellipsis):
             t.add("non-transportable-constant")
@@ -219,6 +228,40 @@ def triggers(op: str, body: ast.expr):
                     continue  # a key the literal defines: must pass
             t.add("dict-lookup")
     return t
+
+
+def _known_type(n):
+    """the type of an expression when it is evident from the text alone (else None): a constant, a comparison or and/or
+    (bool), a defined constant key of a dict literal, an in-range constant index of a tuple literal, a conditional whose
+    branches have evident, agreeing types"""
+    if isinstance(n, ast.Constant):
+        return type(n.value) if n.value is not None and n.value is not Ellipsis else None
+    if isinstance(n, (ast.Compare, ast.BoolOp)):
+        return bool
+    if isinstance(n, (ast.Subscript, ast.Attribute)) and isinstance(n.value, ast.Dict):
+        key = n.attr if isinstance(n, ast.Attribute) else (n.slice.value if isinstance(n.slice, ast.Constant) else None)
+        import keyword
+
+        names = [k.value if isinstance(k, ast.Constant) else None for k in n.value.keys]
+        # only a dictionary whose keys are distinct identifiers can be followed field by field (other keys are legal, but then
+        # nothing is known about a lookup)
+        followable = all(isinstance(x, str) and x.isidentifier() and not keyword.iskeyword(x) for x in names) and len(set(names)) == len(names)
+        if isinstance(key, str) and followable:
+            for k, v in zip(n.value.keys, n.value.values):
+                if isinstance(k, ast.Constant) and k.value == key:
+                    return _known_type(v)
+        return None
+    if isinstance(n, ast.Subscript) and isinstance(n.value, ast.Tuple) and isinstance(n.slice, ast.Constant) \
+            and type(n.slice.value) is int and 0 <= n.slice.value < len(n.value.elts):
+        return _known_type(n.value.elts[n.slice.value])
+    if isinstance(n, ast.IfExp):
+        ta, tb = _known_type(n.body), _known_type(n.orelse)
+        if ta is not None and tb is not None:
+            if ta is tb:
+                return ta
+            if {ta, tb} <= {int, float}:
+                return float
+    return None
 
 
 def _is_boolean_combination(body):
